@@ -30,13 +30,15 @@ def cases(draw, tier="quick"):
     kinds = []
     for k in keys:
         digit = gen.label_of(k, True)[:1].isdigit() or gen.label_of(k, False)[:1].isdigit()
-        kinds.append(draw(st.sampled_from(["int", "str", "null", "list"] if digit else
-                                          ["int", "str", "null", "list", "obj", "obj", "objlist"])))
+        kinds.append(draw(st.sampled_from(["int", "str", "null", "list", "intstr", "boolstr"] if digit else
+                                          ["int", "str", "null", "list", "obj", "obj", "objlist", "intstr", "floatstr", "boolstr"])))
     opts = {"fw": draw(st.sampled_from(gen.FRAMEWORKS)), "unicode": draw(st.booleans()), "meta": draw(st.booleans()),
             "nested": draw(st.booleans()), "pic": draw(st.booleans())}
     if not opts["unicode"] and any(gen.nfkc_unstable(k) for k in keys):
         opts["unicode"] = True      # finding nfkc-unstable-key-without-transliteration, excluded by construction
-    return {"keys": keys, "kinds": kinds, "opts": opts}
+    # keys missing from a second sample become optional fields (None / factory defaults)
+    optional = [draw(st.integers(0, 3)) == 0 for _ in keys]
+    return {"keys": keys, "kinds": kinds, "optional": optional, "opts": opts}
 
 
 def build_object(case):
@@ -44,8 +46,18 @@ def build_object(case):
     obj = {}
     for i, (k, kind) in enumerate(zip(keys, kinds)):
         inner = {keys[(i + 1) % len(keys)]: i, "zz%d" % i: "v"}
-        obj[k] = {"int": i, "str": "s%d" % i, "null": None, "list": [i], "obj": inner, "objlist": [inner]}[kind]
+        obj[k] = {"int": i, "str": "s%d" % i, "null": None, "list": [i], "obj": inner, "objlist": [inner],
+                  "intstr": "1%d" % i, "floatstr": "%d.5" % i, "boolstr": "true"}[kind]
     return obj
+
+
+def build_samples(case):
+    obj = build_object(case)
+    opt = case.get("optional") or []
+    drop = {k for k, o in zip(case["keys"], opt) if o}
+    if not drop:
+        return [obj]
+    return [obj, {k: v for k, v in obj.items() if k not in drop}]
 
 
 def valid(case):
@@ -53,13 +65,16 @@ def valid(case):
         keys, kinds = case["keys"], case["kinds"]
         if len(keys) != len(kinds) or len(keys) < 1:
             return False
+        if "optional" in case and not (isinstance(case["optional"], list) and len(case["optional"]) == len(keys)
+                                       and all(isinstance(x, bool) for x in case["optional"])):
+            return False
         if len({gen.fold(k) for k in keys}) != len(keys) or gen.class_name_collision(keys):
             return False
         for k, kind in zip(keys, kinds):
             if gen.key_status(k, allow_digit_first=True) is not None:
                 return False
             digit = gen.label_of(k, True)[:1].isdigit() or gen.label_of(k, False)[:1].isdigit()
-            if kind not in ("int", "str", "null", "list", "obj", "objlist") or (digit and kind in ("obj", "objlist")):
+            if kind not in ("int", "str", "null", "list", "obj", "objlist", "intstr", "floatstr", "boolstr") or (digit and kind in ("obj", "objlist")):
                 return False
         if not case["opts"].get("unicode", True) and any(gen.nfkc_unstable(k) for k in keys):
             return False
@@ -82,13 +97,15 @@ def check(case):
     r.label("fw:" + fw, "unicode:%s" % opts["unicode"])
     if any(gen.label_of(k, True)[:1].isdigit() for k in case["keys"]):
         r.label("digit-first-key")
-    ok, b = unowned(r, pl.build, [obj], opts)
+    ok, b = unowned(r, pl.build, build_samples(case), opts)
     if not ok:
         return r
     src, nested = codeview.render_owned(r, b, opts)     # naming happens here: a crash on an in-domain key is C11's
     if src is None:
         return r
-    v = codeview.load_view(r, b, opts, src, nested, own=False)
+    # keys are in the stated domain by construction (findings excluded), values are trivial: a module that does not load
+    # here has lost its keys, which is this property's business too
+    v = codeview.load_view(r, b, opts, src, nested, own=True)
     if v is None:
         return r
     root = b.roots[0].type
@@ -118,6 +135,8 @@ def check(case):
         if f.name != key:
             r.nontrivial = True
             r.label("needs-renaming")
+            if f.has_default:
+                r.label("renamed-optional-field")
             if pyd and f.key != key:
                 r.fail("alias-not-exact", f"{f.name}: alias {f.key!r} for key {key!r}\n{src}")
             if fw in ("attrs", "dataclasses") and opts["meta"] and f.key != key:
@@ -131,6 +150,11 @@ def check(case):
                 got = getattr(parsed, fname)
                 want = obj[key]
                 if isinstance(want, (dict, list)):
+                    continue
+                if isinstance(want, str) and not isinstance(got, str):
+                    # pseudo-typed string: the pydantic field holds the parsed value ("11" -> 11), not the string
+                    if got is None:
+                        r.fail("parse-does-not-populate-field", f"{fname} (key {key!r}): got None for {want!r}\n{src}")
                     continue
                 if got != want or type(got) is not type(want):
                     r.fail("parse-does-not-populate-field", f"{fname} (key {key!r}): got {got!r}, sample value {want!r}\n{src}")
